@@ -38,7 +38,7 @@ S = Suite(
           "closure of vertical_profiles), grids 5..16 x 5..12 cells with dx != dy, odd and even "
           "sizes, modes full / truncated / clamped, halo 0 / commensurate / incommensurate / "
           "None, dispersion and footprint, meas_pt on and off grid, scalar and list levels, "
-          "random / sparse / smooth sources; order study on uniform and geometric grids, "
+          "random / sparse / smooth sources; order study on uniform, geometric and gently stretched (2 % over the column) grids, "
           "n in {8,16,32} x {1,2,4}, components with |T|dz^2/Kz <= 0.1 on the coarsest grid",
     rule="closed form: |bin - oracle| <= 1e-9 * max|oracle|, removed bins <= 1e-12 * max; "
          "order: both error ratios (n:2n, 2n:4n) >= 6.5 (at least third order)",
@@ -114,6 +114,10 @@ def make_grid(kind, z0, zt, n):
         return z0 + (zt - z0) * xi
     if kind == "geometric":
         return z0 * (zt / z0) ** xi
+    if kind == "gentle":
+        # slowly varying layer thickness: the top layer is 2 % thicker than the bottom one, at every n
+        w = 1.0 + 0.02 * (np.arange(n) + 0.5) / float(n)
+        return z0 + (zt - z0) * np.concatenate(([0.0], np.cumsum(w))) / np.sum(w)
     raise ValueError(kind)
 
 
@@ -404,10 +408,10 @@ def generate(tier, rng):
     # ---- order of the numerical mode
     c = 0
     for ci, const in enumerate(CONSTS + ([_rand_const(rng) for _ in range(6)] if thorough else [])):
-        for gk in ("uniform", "geometric"):
+        for gk in ("uniform", "geometric", "gentle"):
             for ref in ("closed", "analytic"):
                 c += 1
-                n = {"uniform": 16, "geometric": 32 if ref == "closed" else 64}[gk]
+                n = {"uniform": 16, "gentle": 16, "geometric": 32 if ref == "closed" else 64}[gk]
                 if thorough and c % 3 == 0:
                     n *= 2
                 yield "order", dict(
